@@ -19,6 +19,13 @@ MACHINES = ["M-TI"]
 def generate(rng, tier, idx):
     K = gen_ti.gen_content(rng, max_top=4, float_ts=rng.random() < 0.5)
     ops = gen_ti.build_ops(K, rng)
+    if rng.random() < 0.15:
+        # the variant objects were created for ANOTHER tree (a binary one) and are added to this one (template re-use)
+        other = {"op": "ti_init", "slot": 5, "release": dict(K["release"]), "tree": {"arch": "x86_64" if K["tree"]["arch"] != "x86_64" else "src", "build_timestamp": 7}}
+        ops.insert(1, other)
+        for o in ops:
+            if o["op"] == "ti_var_new" and rng.random() < 0.8:
+                o["owner_slot"] = 5
     path = "/sim/d/.treeinfo"
     keys = gen_ti.top_keys(K)
     tops = [v for v in K["vars"] if v["parent"] is None]
